@@ -62,6 +62,18 @@ def catalogue():
     known("empty", "sequence<string>", [], mutate="append-str")
     known("bool", "bool", True)
     known("flt", "float", 1.5)
+    # tables of realistic size (thousands of entries, negative values)
+    known("big-seq", "sequence<int64_t>",
+          [(-1) ** i * i * 7919 for i in range(1500)], mutate="append")
+    known("big-seq16", "sequence<int16_t>",
+          [(-1) ** i * (i % 30000) for i in range(1025)], mutate="append")
+    known("big-set", "set<uint16_t>", frozenset(range(100, 1400)),
+          mutate="add")
+    known("big-map", "mapping<string,uint64_t>",
+          {"k%d" % i: i for i in range(1100)}, mutate="setitem")
+    known("big-nested", "mapping<string,sequence<uint8_t>>",
+          {"a": [i % 251 for i in range(2100)], "b": []},
+          mutate="map-inner-append")
     # non-canonical but decodable encodings
     known("set-dup", "set<uint8_t>", frozenset([7]),
           raw=u64(2) + b"\x07\x07", mutate="add8")
@@ -200,7 +212,7 @@ def new_value(entry, gen):
     if nm == "set":
         return frozenset(list(v) + [11 + gen])
     if nm == "mapping":
-        if entry["name"] == "nested":
+        if entry["name"] in ("nested", "big-nested"):
             return {"a": [gen]}
         return {}
     if nm == "tuple":
